@@ -308,6 +308,15 @@ impl<'de, K: Key> Deserialize<'de> for RodeoResolver<K> {
         D: Deserializer<'de>,
     {
         let vector: Vec<String> = Vec::deserialize(deserializer)?;
+
+        // Every string needs a key, so there can't be more strings than `K` can index
+        if let Some(last_index) = vector.len().checked_sub(1) {
+            if K::try_from_usize(last_index).is_none() {
+                return Err(serde::de::Error::custom(
+                    "more strings in a serialized resolver than the key type can index",
+                ));
+            }
+        }
         let capacity = {
             let total_bytes = vector.iter().map(|s| s.len()).sum::<usize>();
             let total_bytes =
